@@ -226,6 +226,8 @@ struct Ctl {
     blocked: Option<(String, i64)>,
     /// sends on a full queue may be entered (the schedule asks for it)
     full_send: bool,
+    /// traced locks currently held: address -> (role, mode) (from the lock events; decides whether an L_Acq point may be granted)
+    holders: HashMap<i64, Vec<(String, i64)>>,
 }
 
 impl Ctl {
@@ -302,6 +304,8 @@ impl Ctl {
             "C_ShutPolicy" => (state.chlen as usize) < ACCESS_CHANNEL_CAPACITY,
             "T_Put" | "T_UpdRemove" | "T_UpdInsert" | "T_Del" => self.sweeper_holds != Some(arg),
             "C_ShutClearTtl" => self.sweeper_holds.is_none(),
+            "L_AcqR" => !self.holders.get(&arg).map(|held| held.iter().any(|(other, mode)| other != role && *mode == 1)).unwrap_or(false),
+            "L_AcqW" => !self.holders.get(&arg).map(|held| held.iter().any(|(other, _)| other != role)).unwrap_or(false),
             _ => true,
         }
     }
@@ -343,7 +347,7 @@ impl<'a> Driver<'a> {
 
         verif::install(sched.clone(), "main");
         let (wf_base, wf_mod, wf_ttl) = (cfg.wf_base, cfg.wf_mod.max(1), cfg.wf_ttl);
-        let mut builder = ConfigBuilder::<u64, u64>::new(cfg.counters, cfg.capacity, cfg.max_weight)
+        let mut builder = ConfigBuilder::<u64, u64>::new(cfg.counters, cfg.capacity, if cfg.max_weight > BIG { i64::MAX - (cfg.max_weight - BIG - 1) } else { cfg.max_weight })
             .shards(cfg.shards)
             .command_buffer_size(cfg.qsize)
             .access_pool_size(cfg.pool)
@@ -410,11 +414,12 @@ impl<'a> Driver<'a> {
             sched: sched.clone(), shared: shared.clone(), clock: clock.clone(), cfg: cfg.clone(),
             ack_numbers: HashMap::new(), ack_handles: Vec::new(), current_op: HashMap::new(),
             sweeper_holds: None, last_ttl: Vec::new(), last_used: 0, last_buf: Vec::new(), hash_to_key: HashMap::new(), last_acks: HashMap::new(),
-            blocked: None, full_send: false,
+            blocked: None, full_send: false, holders: HashMap::new(),
         };
         let _ = &ctl.hash_to_key;
         let mut step_no: i64 = 0;
         let lock_names: HashMap<i64, String> = cache.verif_lock_ids().into_iter().collect();
+        sched.set_lock_filter(lock_names.keys().copied().collect());
         let _ = sched.drain_events();
         let mut state = ctl.state();
         self.emit(&StepRec {
@@ -544,7 +549,16 @@ impl<'a> Driver<'a> {
                     }
                 }
             }
-            let (actor, advance) = choice.unwrap();
+            let (mut actor, advance) = choice.unwrap();
+            if (actor == "env" || actor == "sweeper") && idle_steps > 200 && list.is_none() {
+                // only the clock and the sweeper have moved for a long time: if anything else can move, it is the schedule
+                // that starves it (a small eagerness), not the code; let it run
+                if let Some(role) = roles.iter().find(|role| role.as_str() != "sweeper" && ctl.enabled(role, &state, &scenario.programs, &cursor)
+                                                      && !(role.as_str() == "consumer" && stall_consumer)
+                                                      && ctl.site_of(role).map(|pair| pair.0 != "C_Poll").unwrap_or(false)) {
+                    actor = role.clone();
+                }
+            }
             if actor != "env" { last_actor = Some(actor.clone()); }
             if actor == "env" || actor == "sweeper" { idle_steps += 1; } else { idle_steps = 0; }
             if idle_steps > 400 && list.is_none() { stuck = true; break; }
@@ -649,6 +663,14 @@ impl<'a> Driver<'a> {
                 drained = others;
             }
             for ev in drained {
+                if ev.name == "lk" && ev.fields.len() >= 3 {
+                    if ev.fields[0] == verif::LK_GOT { ctl.holders.entry(ev.fields[1]).or_default().push((ev.role.clone(), ev.fields[2])); }
+                    if ev.fields[0] == verif::LK_REL {
+                        if let Some(held) = ctl.holders.get_mut(&ev.fields[1]) {
+                            if let Some(position) = held.iter().position(|(role, mode)| role == &ev.role && *mode == ev.fields[2]) { held.remove(position); }
+                        }
+                    }
+                }
                 if ev.name == "lk" || ev.name == "q" {
                     if let Some(locks) = self.locks.as_mut() {
                         let name = |address: i64, ctl: &Ctl| -> String {
